@@ -28,7 +28,7 @@ import (
 
 func init() {
 	core.RegisterMeta("C21", core.Meta{
-		Rule: "random write programs (1..12 top-level operations, nesting <= 4) over AddUint8/16/24/32, AddBytes, AddUint{8,16,24,32}LengthPrefixed, AddASN1Int64/Uint64/BigInt/Enum/Int64WithTag/Boolean/ObjectIdentifier/OctetString/BitString/GeneralizedTime/NULL, AddASN1(tag){..}, MarshalASN1, Unwrite, " +
+		Rule: "random write programs (1..12 top-level operations, up to 5 builder levels) over AddUint8/16/24/32, AddBytes, AddUint{8,16,24,32}LengthPrefixed, AddASN1Int64/Uint64/BigInt/Enum/Int64WithTag/Boolean/ObjectIdentifier/OctetString/BitString/GeneralizedTime/NULL, AddASN1(tag){..}, MarshalASN1, Unwrite, " +
 			"on zero-value, NewBuilder(prefix) and NewFixedBuilder builders; payload and content lengths biased to 0/127/128/255/256/65535/65536 (rarely 2^24); mirrored read program with the matching String readers (reader variant chosen at random among the matching ones); " +
 			"at element positions every optional reader is additionally run on a copy with the present tag (when the element has the reader's shape) and with an absent tag, with the following elements still in the String; " +
 			"non-trivial = program whose build succeeded and whose mirrored read program was executed to the end or to the first divergence; distinct by hash of the program text",
@@ -36,6 +36,7 @@ func init() {
 		MinNontrivialThorough: 1000000,
 		Shards:                16,
 		GoMaxProcs:            2,
+		Env:                   []string{"GOGC=400"},
 		Assumptions: []string{
 			"asn1.AllowPermissiveParsing is false (MarshalASN1 goes through encoding/asn1)",
 			"element boundaries come from the Builder itself (length of the bytes written so far, observed before and after each call), not from a second encoder; an independent reference encoder is compared with the Builder output and disagreements are counted (ref_encoder_disagrees), not asserted",
@@ -165,6 +166,10 @@ type pgen struct {
 func pick[T any](rng *rand.Rand, xs []T) T { return xs[rng.IntN(len(xs))] }
 
 func (g *pgen) size(small bool) int {
+	if g.hugeLeft > 0 && !small && g.rng.IntN(6) == 0 {
+		g.hugeLeft--
+		return pick(g.rng, []int{1<<24 - 6, 1<<24 - 5, 1<<24 - 4, 1<<24 - 1, 1 << 24, 1<<24 + 1})
+	}
 	r := g.rng.IntN(1000)
 	switch {
 	case small || r < 500:
@@ -177,11 +182,6 @@ func (g *pgen) size(small bool) int {
 		if g.bigLeft > 0 {
 			g.bigLeft--
 			return pick(g.rng, []int{65520, 65527, 65528, 65529, 65530, 65531, 65532, 65533, 65534, 65535, 65536, 65537, 70000})
-		}
-	default:
-		if g.hugeLeft > 0 && g.rng.IntN(3) == 0 {
-			g.hugeLeft--
-			return pick(g.rng, []int{1<<24 - 6, 1<<24 - 5, 1<<24 - 4, 1<<24 - 1, 1 << 24, 1<<24 + 1})
 		}
 	}
 	return 131
@@ -272,20 +272,9 @@ func (g *pgen) oidv() (zasn1.ObjectIdentifier, bool) {
 			oid[i] = g.rng.IntN(20000)
 		}
 	}
-	if g.rng.IntN(60) == 0 { // beyond the reader's four-octet sub-identifiers: counted only
-		oid[2+g.rng.IntN(n-2+1)%n] = 1<<28 + g.rng.IntN(1<<20)
+	if n > 2 && g.rng.IntN(60) == 0 { // beyond the reader's four-octet sub-identifiers: counted only
+		oid[2+g.rng.IntN(n-2)] = 1<<28 + g.rng.IntN(1<<20)
 		large = true
-		for i, v := range oid {
-			if i < 2 && v >= 1<<28 {
-				oid[i] = 1
-				large = false
-			}
-		}
-		for _, v := range oid[2:] {
-			if v >= 1<<28 {
-				large = true
-			}
-		}
 	}
 	return oid, large
 }
